@@ -297,6 +297,67 @@ fn run_groups_lib(level: usize, groups: &[Vec<Cfg>], rng: &mut Rng, rep: &mut Re
     }
 }
 
+/// A guarded member inside a guarded parent (field in a struct variant, field in a struct): each level is judged on its
+/// own attributes - the member is generated iff the parent passes by its guard and the member passes by its own
+fn two_levels(rep: &mut Report, lists: &[Vec<&'static str>]) {
+    let guards = vec![Cfg::Os("a"), Cfg::Os("b"), Cfg::Os("c"), Cfg::Not(Box::new(Cfg::Os("a"))), Cfg::Not(Box::new(Cfg::Os("b"))), Cfg::Feature, Cfg::Any(vec![Cfg::Os("a"), Cfg::Os("b")])];
+    let mut stems = Stems::default();
+    let mut rng = Rng::new(13);
+    // (parent guard, member guard, parent stem, member stem, kind)
+    let mut cases: Vec<(Cfg, Cfg, String, String, &'static str)> = vec![];
+    let mut src = String::from("#[typeshare]\n#[serde(tag = \"t\", content = \"c\")]\npub enum Holder {\n    Always,\n");
+    for v in &guards {
+        for f in &guards {
+            let (vs, fs) = (stems.fresh(&mut rng), stems.fresh(&mut rng));
+            src.push_str(&format!("    #[cfg({})]\n    {} {{\n        always: u8,\n        #[cfg({})]\n        {fs}: u8,\n    }},\n", v.render(), crate::gen::cap(&vs), f.render()));
+            cases.push((v.clone(), f.clone(), vs, fs, "struct-variant-field"));
+        }
+    }
+    src.push_str("}\n");
+    for v in &guards {
+        for f in &guards {
+            let (vs, fs) = (stems.fresh(&mut rng), stems.fresh(&mut rng));
+            src.push_str(&format!("#[cfg({})]\n#[typeshare]\npub struct {} {{\n    pub always: u8,\n    #[cfg({})]\n    pub {fs}: u8,\n}}\n", v.render(), crate::gen::cap(&vs), f.render()));
+            cases.push((v.clone(), f.clone(), vs, fs, "field"));
+        }
+    }
+    let files = vec![SrcFile { path: "src/lib.rs".into(), source: src.clone() }];
+    for t in lists {
+        let tos: Vec<String> = t.iter().map(|s| s.to_string()).collect();
+        let out = run_lib(&files, LangId::Ts, &LangCfg::default(), false, &tos);
+        rep.count("library_runs", 1);
+        let present = match &out {
+            LibOutcome::Ok(_) => match present_stems(out.single().unwrap_or("")) {
+                Some(p) => p,
+                None => {
+                    rep.inconclusive("typescript-output-not-parsed", json!({"workload": "two-levels"}));
+                    continue;
+                }
+            },
+            other => {
+                rep.inconclusive("typeshare-failed", json!({"workload": "two-levels", "outcome": other.describe()}));
+                continue;
+            }
+        };
+        for (v, f, vs, fs, kind) in &cases {
+            let want_parent = expect_keep(std::slice::from_ref(v), t);
+            let want_member = want_parent && expect_keep(std::slice::from_ref(f), t);
+            rep.eval(1);
+            rep.count("decisions_two_levels", 1);
+            rep.cell(format!("two-levels|{kind}|parent={}|member={}|T{}|{want_parent}|{want_member}", v.shape(), f.shape(), t.len()));
+            for (what, want, got) in [("parent", want_parent, present.contains(vs)), ("member", want_member, present.contains(fs))] {
+                if want != got {
+                    rep.violate(
+                        format!("C13|library|two-levels|{kind}|{what}|{}", if want { "wrongly-filtered" } else { "wrongly-kept" }),
+                        format!("{kind} guarded by cfg({}) inside a parent guarded by cfg({}) with target list {t:?}: the {what} is expected {}, the generated output {}", f.render(), v.render(), if want { "kept" } else { "omitted" }, if got { "contains it" } else { "omits it" }),
+                        json!({"parent_cfg": v.render(), "member_cfg": f.render(), "target_os": t, "what": what, "expected_kept": want, "observed_kept": got}),
+                    );
+                }
+            }
+        }
+    }
+}
+
 pub fn run(ctx: &Ctx) -> (Spec, Report) {
     let lists = target_lists();
     let quick = ctx.tier == crate::report::Tier::Quick;
@@ -441,11 +502,12 @@ pub fn run(ctx: &Ctx) -> (Spec, Report) {
         rep
     });
     rep.merge(r2);
+    two_levels(&mut rep, &lists);
     let _ = std::fs::remove_dir_all(&scratch);
     let spec = Spec {
         level: "exploration",
         rule: format!(
-            "cfg expressions over any/all/not with leaves target_os=a|b|c, feature, unix: all {n3} expressions of depth <= 3 (depth 1 complete, deeper levels pair one deep child with a leaf in both child orders) x all 16 target lists over {{a,b,c,d}} x 5 attachment levels (file level: depth <= 2 in quick), a quarter of the files writing `cfg (` / `cfg<newline>(`; thorough adds all {exhaustive_d4} depth-4 expressions over the reduced alphabet at type level (5 % at the other levels); plus {n_random} random depth-4 expressions incl. two deep children and 1-3 cfg attributes per element, and {n_cli} trees through the real binary with --target-os a b / -t a b / --target-os=a,b / a repeated name in the middle / an empty entry / one -t per name / no option; decision read from generated TypeScript; a cell is distinct by (level, expression shape, |T|, expected decision)"
+            "cfg expressions over any/all/not with leaves target_os=a|b|c, feature, unix: all {n3} expressions of depth <= 3 (depth 1 complete, deeper levels pair one deep child with a leaf in both child orders) x all 16 target lists over {{a,b,c,d}} x 5 attachment levels (file level: depth <= 2 in quick), a quarter of the files writing `cfg (` / `cfg<newline>(`; thorough adds all {exhaustive_d4} depth-4 expressions over the reduced alphabet at type level (5 % at the other levels); plus 98 two-level cases (a guarded field inside a guarded struct variant / struct, 7 x 7 guards) x 16 target lists; plus {n_random} random depth-4 expressions incl. two deep children and 1-3 cfg attributes per element, and {n_cli} trees through the real binary with --target-os a b / -t a b / --target-os=a,b / a repeated name in the middle / an empty entry / one -t per name / no option; decision read from generated TypeScript; a cell is distinct by (level, expression shape, |T|, expected decision)"
         ),
         assumptions: vec![
             "the oracle is the rule as worded in the property: N = names under any not(...), P = the others, over all cfg attributes of the element".into(),
